@@ -744,3 +744,22 @@ impl<KT: DbMapKeyType + std::fmt::Display> CheckFileDbMap for FileDbXxxInner<KT>
     }
     */
 }
+
+#[cfg(abyssiniandb_verif)]
+pub mod verif_probe {
+    //! verification hook: build a map handle from three already-open files.
+    use super::*;
+    pub fn inner<KT: DbMapKeyType>(
+        key_file: key::KeyFile<KT>,
+        val_file: val::ValueFile,
+        htx_file: htx::HtxFile,
+    ) -> FileDbXxxInner<KT> {
+        FileDbXxxInner {
+            dirty: false,
+            key_file,
+            val_file,
+            htx_file,
+            _phantom: std::marker::PhantomData,
+        }
+    }
+}
